@@ -202,7 +202,8 @@ func (x Int8) Value() interface{} {
 }
 
 func (x Int8) Compare(y Comparable) int {
-	return int(int8(x) - y.Value().(int8))
+	// widen first: the difference of two int8 values does not fit one
+	return int(x) - int(y.Value().(int8))
 }
 
 func (x Int8) Int64() int64 {
@@ -250,10 +251,11 @@ func (x UInt8) Value() interface{} {
 }
 
 func (x UInt8) Compare(b Comparable) int {
-	c := uint8(x) - b.Value().(uint8)
-	if c < 0 {
+	// compare, do not subtract: a difference wraps around
+	y := b.Value().(uint8)
+	if uint8(x) < y {
 		return -1
-	} else if c > 0 {
+	} else if uint8(x) > y {
 		return 1
 	}
 	return 0
@@ -304,7 +306,8 @@ func (x Int16) Value() interface{} {
 }
 
 func (x Int16) Compare(y Comparable) int {
-	return int(int16(x) - y.Value().(int16))
+	// widen first: the difference of two int16 values does not fit one
+	return int(x) - int(y.Value().(int16))
 }
 
 func (x Int16) Int64() int64 {
@@ -352,10 +355,11 @@ func (x UInt16) Value() interface{} {
 }
 
 func (x UInt16) Compare(b Comparable) int {
-	c := uint16(x) - b.Value().(uint16)
-	if c < 0 {
+	// compare, do not subtract: a difference wraps around
+	y := b.Value().(uint16)
+	if uint16(x) < y {
 		return -1
-	} else if c > 0 {
+	} else if uint16(x) > y {
 		return 1
 	}
 	return 0
@@ -454,10 +458,11 @@ func (x UInt32) Value() interface{} {
 }
 
 func (x UInt32) Compare(b Comparable) int {
-	c := uint(x) - b.Value().(uint)
-	if c < 0 {
+	// compare, do not subtract: a difference wraps around
+	y := b.Value().(uint)
+	if uint(x) < y {
 		return -1
-	} else if c > 0 {
+	} else if uint(x) > y {
 		return 1
 	}
 	return 0
@@ -508,10 +513,11 @@ func (x Int64) Value() interface{} {
 }
 
 func (x Int64) Compare(b Comparable) int {
-	c := int64(x) - b.Value().(int64)
-	if c < 0 {
+	// compare, do not subtract: a difference wraps around
+	y := b.Value().(int64)
+	if int64(x) < y {
 		return -1
-	} else if c > 0 {
+	} else if int64(x) > y {
 		return 1
 	}
 	return 0
@@ -562,10 +568,11 @@ func (x UInt64) Value() interface{} {
 }
 
 func (x UInt64) Compare(b Comparable) int {
-	c := uint64(x) - b.Value().(uint64)
-	if c < 0 {
+	// compare, do not subtract: a difference wraps around
+	y := b.Value().(uint64)
+	if uint64(x) < y {
 		return -1
-	} else if c > 0 {
+	} else if uint64(x) > y {
 		return 1
 	}
 	return 0
